@@ -45,8 +45,8 @@ Section Proofs.
           apply IH in W; subst. cbn. rewrite replace_nth_same; auto.
         * inv H; reflexivity.
       + destruct n as [t s v|kvs|es]; try (destruct (is_null _); inv H; reflexivity).
-        destruct es as [|e0 es']; [inv H|].
-        destruct (nth_error (e0 :: es') (List.length (e0 :: es') - 1)) as [e|] eqn:F; [|inv H].
+        destruct es as [|e0 es']; [inv H; reflexivity|].
+        destruct (nth_error (e0 :: es') (List.length (e0 :: es') - 1)) as [e|] eqn:F; [|inv H; reflexivity].
         destruct (walk None ps k e) as [[x' r']| | |] eqn:W; cbn in H; inv H.
         apply IH in W; subst. cbn [fst]. rewrite replace_nth_same; auto.
       + destruct n as [t s v0|kvs|es]; try (destruct (is_null _); inv H; reflexivity).
@@ -434,9 +434,9 @@ Proof.
     + discriminate.
     + rewrite C in H. inv H; auto.
   - (* PLast *) destruct n as [t s v|kvs|es]; cbn in H, C.
-    + destruct t; inv H.
+    + destruct t; inv H; auto.
     + discriminate.
-    + destruct es as [|e es]; [discriminate|]. cbn in C, H. rewrite C in H. discriminate.
+    + destruct es as [|e es]; [inv H; auto|]. cbn in C, H. rewrite C in H. inv H; auto.
   - (* PSel *) destruct n as [t s v0|kvs|es]; cbn in H, C.
     + destruct t; try discriminate.
       destruct cr as [leaf|]; [|inv H; auto].
@@ -705,7 +705,7 @@ Definition miss {A} (p : part) (n : node) : res (node * option A) :=
   match p with
   | PKey _ => match n with Map _ => Ok (n, None) | _ => if is_null n then Ok (n, None) else Err end
   | PIdx _ => match n with Seq _ => Ok (n, None) | _ => if is_null n then Ok (n, None) else Err end
-  | PLast => match n with Seq _ => Panic | _ => if is_null n then Panic else Err end
+  | PLast => match n with Seq _ => Ok (n, None) | _ => if is_null n then Ok (n, None) else Err end
   | PSel _ _ => match n with Seq _ => Ok (n, None) | _ => if is_null n then Ok (n, None) else Err end
   | _ => Err
   end.
@@ -716,9 +716,7 @@ Proof.
   intros C. destruct p; destruct n as [t s v0|kvs|es]; cbn in C |- *; try reflexivity; try discriminate.
   - now rewrite C.
   - now rewrite C.
-  - destruct es as [|e es]; [reflexivity|]. cbn in C |- *. rewrite C.
-    (* last element of a non-empty list exists *)
-    exfalso. apply nth_error_None in C. cbn in C. lia.
+  - destruct es as [|e es]; [reflexivity|]. cbn in C |- *. now rewrite C.
   - destruct (find_index (sel_match nm v) es) as [i|] eqn:F; [|reflexivity].
     destruct (find_index_some _ _ _ F) as [? [? _]]; congruence.
 Qed.
@@ -1153,63 +1151,87 @@ Section Instances.
 End Instances.
 
 (* ====================================================================================================
-   Panics: the only panic of a path walk is "-" (PLast) on an empty or null sequence
+   No panic: a path walk never panics unless the continuation does.
+   (Before the repo fix 5cf7cc6 "-" on an empty or null sequence indexed elems[-1]; ElementIndexer now
+   returns "no match" there, and the model's PLast branches return Ok (n, None).)
    ==================================================================================================== *)
-Lemma walk_last_on_empty {A} cr ps (k : node -> res (node * A)) : walk cr (PLast :: ps) k (Seq []) = Panic.
+Lemma walk_last_on_empty {A} cr ps (k : node -> res (node * A)) :
+  walk cr (PLast :: ps) k (Seq []) = Ok (Seq [], None).
 Proof. reflexivity. Qed.
 
 Lemma walk_last_on_null {A} cr ps (k : node -> res (node * A)) s v :
-  walk cr (PLast :: ps) k (Scalar TNull s v) = Panic.
+  walk cr (PLast :: ps) k (Scalar TNull s v) = Ok (Scalar TNull s v, None).
 Proof. reflexivity. Qed.
 
-Lemma child_last_none es : child PLast (Seq es) = None -> es = [].
-Proof.
-  destruct es as [|e es]; [reflexivity|]. cbn [child]. intros H.
-  apply nth_error_None in H. cbn in H. lia.
-Qed.
-
-Lemma lookup_panic_char ps :
-  forall n, lookup ps n = Panic ->
-  exists ps1 ps2 x, ps = (ps1 ++ PLast :: ps2)%list /\ lookup ps1 n = Ok (Some x) /\ (x = Seq [] \/ is_null x = true).
-Proof.
-  induction ps as [|p ps IH]; intros n H; [discriminate|].
-  destruct (child p n) as [y|] eqn:C.
-  - rewrite (lookup_found _ _ _ _ C) in H.
-    destruct (IH _ H) as (ps1 & ps2 & x & -> & L & Hx).
-    exists (p :: ps1), ps2, x. repeat split; auto. cbn [app]. now rewrite (lookup_found _ _ _ _ C).
-  - unfold lookup in H. rewrite (walk_missing_nocreate _ _ _ _ C) in H.
-    destruct p; destruct n as [t s v0|kvs|es]; cbn in H; try discriminate;
-      try (destruct t; discriminate).
-    + exists [], ps, (Scalar t s v0). repeat split; auto. right. destruct t; try discriminate; reflexivity.
-    + exists [], ps, (Seq es). repeat split; auto. left. now rewrite (child_last_none _ C).
-Qed.
-
-Fixpoint has_last (ps : list part) : bool :=
-  match ps with [] => false | PLast :: _ => true | _ :: t => has_last t end.
-
 Lemma walk_no_panic {A} cr ps (k : node -> res (node * A)) :
-  has_last ps = false -> (forall x, k x <> Panic) -> forall n, walk cr ps k n <> Panic.
+  (forall x, k x <> Panic) -> forall n, walk cr ps k n <> Panic.
 Proof.
-  intros HL HK. induction ps as [|p ps IH]; intros n H.
+  intros HK. induction ps as [|p ps IH]; intros n H.
   - cbn in H. specialize (HK n). destruct (k n) as [[? ?]| | |]; cbn in H; congruence.
-  - assert (HL' : has_last ps = false) by (destruct p; cbn in HL; auto; discriminate).
-    specialize (IH HL').
-    destruct (child p n) as [x|] eqn:C.
+  - destruct (child p n) as [x|] eqn:C.
     + rewrite (walk_found _ _ _ _ _ _ C) in H. specialize (IH x).
       destruct (walk cr ps k x) as [[? ?]| | |]; cbn in H; congruence.
     + destruct cr as [leaf|].
       2:{ rewrite (walk_missing_nocreate _ _ _ _ C) in H.
-          destruct p; destruct n as [t s v0|kvs|es]; cbn in H, HL; try discriminate;
+          destruct p; destruct n as [t s v0|kvs|es]; cbn in H; try discriminate;
             try (destruct t; discriminate). }
-      destruct p; destruct n as [t s v0|kvs|es]; cbn in C, H, HL; try discriminate;
+      destruct p; destruct n as [t s v0|kvs|es]; cbn in C, H; try discriminate;
         try (destruct t; discriminate).
       all: try (rewrite C in H; try discriminate).
+      all: try (destruct es as [|e es]; [discriminate|cbn in C, H; rewrite C in H; discriminate]).
       all: try (destruct t; try discriminate).
       all: try (destruct (find_index (sel_match nm v) es) as [i|] eqn:F; [rewrite C in H; discriminate|]).
       all: match type of H with
            | bind (walk _ _ _ ?f) _ = Panic => specialize (IH f);
                destruct (walk (Some leaf) ps k f) as [[? ?]| | |]; cbn in H; congruence
            end.
+Qed.
+
+Lemma k_get_no_panic x : k_get x <> Panic.
+Proof. discriminate. Qed.
+
+Lemma lookup_no_panic ps n : lookup ps n <> Panic.
+Proof.
+  unfold lookup. intros H. pose proof (walk_no_panic None ps k_get k_get_no_panic n) as W.
+  destruct (walk None ps k_get n) as [[? ?]| | |]; cbn in H; congruence.
+Qed.
+
+Lemma lookup_create_no_panic leaf ps n : lookup_create leaf ps n <> Panic.
+Proof. apply walk_no_panic, k_get_no_panic. Qed.
+
+Lemma set_field_no_panic nonstr name v keep m : set_field nonstr name v keep m <> Panic.
+Proof.
+  unfold set_field, clear_field. destruct v as [v0|].
+  - destruct (is_null v0 && negb keep); destruct m as [t ? ?| kvs |]; try discriminate;
+      try (destruct t; discriminate). destruct (find_field name kvs); discriminate.
+  - destruct m as [t ? ?| |]; try discriminate. destruct t; discriminate.
+Qed.
+
+Lemma put_no_panic nonstr ps name v n : put nonstr ps name v n <> Panic.
+Proof.
+  apply walk_no_panic. intros x. unfold k_set_field.
+  pose proof (set_field_no_panic nonstr name (Some v) false x) as S.
+  destruct (set_field nonstr name (Some v) false x); cbn; congruence.
+Qed.
+
+Lemma put_nocreate_no_panic nonstr ps name v n : put_nocreate nonstr ps name v n <> Panic.
+Proof.
+  apply walk_no_panic. intros x. unfold k_set_field.
+  pose proof (set_field_no_panic nonstr name (Some v) false x) as S.
+  destruct (set_field nonstr name (Some v) false x); cbn; congruence.
+Qed.
+
+Lemma clear_at_no_panic ps name n : clear_at ps name n <> Panic.
+Proof.
+  apply walk_no_panic. intros x. unfold k_clear, clear_field.
+  destruct x as [t ? ?| |]; cbn; try discriminate. destruct t; discriminate.
+Qed.
+
+Lemma put_scalar_no_panic ps v n : put_scalar ps v n <> Panic.
+Proof.
+  apply walk_no_panic. intros x. unfold k_set_scalar, set_scalar.
+  destruct x as [t s0 v0| |]; cbn; try discriminate.
+  destruct t; cbn; destruct (is_null v); discriminate.
 Qed.
 
 (* ====================================================================================================
@@ -1296,7 +1318,8 @@ Section Examples.
     - vm_compute. repeat split. discriminate.
   Qed.
 
-  (* "-" on an empty list panics (kyaml: elems[len(elems)-1] with len 0) *)
-  Lemma last_on_empty_panics : lookup [PKey "l"; PLast] doc = Panic.
-  Proof. reflexivity. Qed.
+  (* "-" on an empty list or a null node finds nothing (it used to panic: elems[len(elems)-1] with len 0) *)
+  Lemma last_on_empty_absent :
+    lookup [PKey "l"; PLast] doc = Ok None /\ lookup [PKey "a"; PLast] doc = Ok None.
+  Proof. split; reflexivity. Qed.
 End Examples.
